@@ -27,14 +27,23 @@ class RunResult:
         return None
 
 
-def run_rq(binary, cwd, args, env_extra=None, pre=None, timeout=RUN_TIMEOUT):
+def _preexec(nofile):
+    def f():
+        os.umask(0o022)
+        if nofile:
+            import resource
+            resource.setrlimit(resource.RLIMIT_NOFILE, (nofile, nofile))
+    return f
+
+
+def run_rq(binary, cwd, args, env_extra=None, pre=None, timeout=RUN_TIMEOUT, nofile=None):
     """args: list of CLI arguments after the binary.  pre: argv prefix (e.g. strace ...)."""
     argv = (pre or []) + [binary] + list(args)
     env = clean_env(env_extra)
     env.pop("RAPIDQUILT_THREADS", None)
     try:
         p = subprocess.run(argv, cwd=cwd, env=env, stdout=subprocess.PIPE, stderr=subprocess.PIPE, timeout=timeout,
-                           preexec_fn=lambda: os.umask(0o022))
+                           preexec_fn=_preexec(nofile))
         return RunResult(p.returncode, p.stdout, p.stderr, False, argv)
     except subprocess.TimeoutExpired as e:
         return RunResult(None, e.stdout or b"", e.stderr or b"", True, argv)
